@@ -175,7 +175,7 @@ PROPS = {
         "level": "proof",
         "lean_modules": ["CrabProofs.Props.C03", "CrabProofs.Props.C03Itv", "CrabProofs.Props.C03Cst", "CrabProofs.Props.C03Sgn",
                          "CrabProofs.Props.C03CongDom", "CrabProofs.Props.C03Ric", "CrabProofs.Props.C03Rel", "CrabProofs.Props.C03Functors", "CrabProofs.Props.C03FlatBool",
-                         "CrabProofs.Props.C03FlatBoolCex"],
+                         "CrabProofs.Props.C03FlatBoolCex", "CrabProofs.Props.C03Functors2"],
         "components": [idom_component("[C03]")] + xdom_components("[C03]") + dom_components("[C03]", 900, 12000) + dom2_components("[C03]", 400, 6000),
         "rule": DOM_RULE, "assumptions": DOM_ASSUME,
         "trusted_base": COMMON_TB + ["driver concrete semantics: lean/Driver/DomH.lean (definitions of the witness replay and of membership)"],
@@ -183,7 +183,7 @@ PROPS = {
     "C04": {
         "level": "proof",
         "lean_modules": ["CrabProofs.Props.C04", "CrabProofs.Props.C04Itv", "CrabProofs.Props.C04Cst", "CrabProofs.Props.C04Sgn",
-                         "CrabProofs.Props.C04CongDom", "CrabProofs.Props.C04Ric", "CrabProofs.Props.C04Rel", "CrabProofs.Props.C04Functors", "CrabProofs.Props.C04FlatBool"],
+                         "CrabProofs.Props.C04CongDom", "CrabProofs.Props.C04Ric", "CrabProofs.Props.C04Rel", "CrabProofs.Props.C04Functors", "CrabProofs.Props.C04FlatBool", "CrabProofs.Props.C04Functors2"],
         "components": [idom_component("[C04]")] + xdom_components("[C04]") + dom_components("[C04]", 700, 10000) + dom2_components("[C04]", 300, 5000),
         "rule": DOM_RULE + "; C04 adds: all ordered pairs of the final pool for <=, x<=x, bot<=x, x<=top, is_bottom(bottom), is_top(top), is_top/is_bottom after set_to_*",
         "assumptions": DOM_ASSUME,
@@ -261,7 +261,7 @@ PROPS = {
     },
     "C12": {
         "level": "proof",
-        "lean_modules": ["CrabProofs.Props.C12"],
+        "lean_modules": ["CrabProofs.Props.C12", "CrabProofs.Props.C12Incr"],
         "components": (
             [{"harness": f"h_exact_{d}", "source": "h_exact", "defines": [f"-DVDOM={d}"], "quick": 500, "thorough": 20000,
               "shards": 1, "corpus": f"h_exact_{d}",
